@@ -279,13 +279,38 @@ def rule_rowkeys(ctx):
     n += 1
     okd = False
     if ok:
-        ifs = [s for s in lp.body if isinstance(s, ast.If)]
-        if len(ifs) == 1:
-            t = ifs[0].test
-            eq = isinstance(t, ast.Compare) and isinstance(t.ops[0], ast.Eq) and {norm(t.left), norm(t.comparators[0])} == {f'{hmap}.get({keyv})', cv}
-            body = [norm(x) for x in ifs[0].body]
-            els = [norm(x) for x in ifs[0].orelse if not isinstance(x, ast.AugAssign)]
-            okd = eq and body == [f'{kdel}.remove({keyv})'] and els == [f'{witems}.append(({keyv}, {cv}))']
+        # per path through one new row: identical to the stored row (hist_map.get(key) == chunk, or key in hist_map and
+        # hist_map[key] == chunk) => un-marked and not written; otherwise written and left marked
+        from .. import paths as P
+        okd = True
+        n_same = n_diff = 0
+        for pth in P.paths(lp.body):
+            same = None
+            for t, pol, _n in pth.conds:
+                if isinstance(t, ast.Compare) and len(t.ops) == 1 and isinstance(t.ops[0], (ast.Eq, ast.NotEq)):
+                    sides = {norm(P.subst(t.left, {})), norm(t.comparators[0])}
+                    kexpr = norm(pth.env[keyv]) if keyv in pth.env else keyv
+                    if sides in ({f'{hmap}.get({kexpr})', cv}, {f'{hmap}[{kexpr}]', cv}, {f'{hmap}.get({keyv})', cv}, {f'{hmap}[{keyv}]', cv}):
+                        eqv = (pol == isinstance(t.ops[0], ast.Eq))
+                        same = eqv if same is None else (same and eqv)
+                elif isinstance(t, ast.Compare) and len(t.ops) == 1 and isinstance(t.ops[0], (ast.In, ast.NotIn)) and norm(t.comparators[0]) == hmap:
+                    inn = (pol == isinstance(t.ops[0], ast.In))
+                    if not inn:
+                        same = False
+            simple = [st_ for st_, _e in pth.events if isinstance(st_, ast.Expr) and isinstance(st_.value, ast.Call)]
+            removed = [st_ for st_ in simple if norm(st_.value.func) == f'{kdel}.remove']
+            written = [st_ for st_ in simple if norm(st_.value.func) == f'{witems}.append']
+            if any(norm(st_.value.args[0]) != keyv for st_ in removed) or any(norm(st_.value.args[0]) != f'({keyv}, {cv})' for st_ in written):
+                okd = False
+            if same is None:
+                okd = False
+            elif same:
+                n_same += 1
+                okd = okd and len(removed) == 1 and not written
+            else:
+                n_diff += 1
+                okd = okd and len(written) == 1 and not removed
+        okd = okd and n_same >= 1 and n_diff >= 1
         upd = [c for c in q.own_calls(f) if norm(c.func) == f'{kdel}.update' and norm(c.args[0]) == hmap]
         okd = okd and len(upd) == 1 and q.stmt(upd[0]).lineno < lp.lineno
     ctx.check(okd, 'C14.ROWKEYS', ctx.key(f, None, 'delete all, keep identical'),
